@@ -1222,9 +1222,13 @@ func appendFilter(streamDict Dict, name Name, parms Dict) {
 		}
 
 	default:
+		// A /DecodeParms entry found here has no filter it could belong to.
+		// It must not end up attached to the filter which is added now.
 		streamDict["Filter"] = name
 		if len(parms) > 0 {
 			streamDict["DecodeParms"] = parms
+		} else {
+			delete(streamDict, "DecodeParms")
 		}
 	}
 }
